@@ -22,7 +22,7 @@ ASSUMPTIONS = ['MPS <-> dense conversion validated by C07, site operators by C12
 TOL = 1e-9
 
 STEPS = ['local_op', 'local_op', 'local_op_n', 'product_op', 'local_term', 'swap', 'swap', 'permute', 'add', 'group', 'enlarge_chi', 'compress', 'inversion', 'gauge', 'copy',
-         'canonical']
+         'canonical', 'convert', 'convert']
 
 
 @st.composite
@@ -366,6 +366,19 @@ def run_hist(spec):
                 if grouped is None:
                     check(psi, ref, tags)
                 continue
+            elif kind == 'convert':
+                # mixed canonical forms (as left behind by sweeps / from_full(form=None)): the represented state must not change,
+                # and the following steps act on a non-uniform form
+                if grouped is not None:
+                    continue
+                r2 = np.random.default_rng(arg)
+                if arg % 3 == 0:
+                    c = int(r2.integers(0, L))
+                    forms = ['A'] * c + ['Th' if arg % 2 else 'B'] + ['B'] * (L - c - 1)
+                else:
+                    forms = [['A', 'B', 'C', 'G', 'Th'][int(k)] for k in r2.integers(0, 5, size=L)]
+                psi.convert_form(forms)
+                check(psi, ref, tags, canonical=False)
             elif kind == 'canonical':
                 if grouped is not None:
                     continue
